@@ -14,6 +14,7 @@ inductive Step where
   | capsAdd | capsSub
   | getReadCount | getReadCaps | lookupVariant
   | readCode | writeCode | writeMeta
+  | writeToken                 -- `fn.__globals__[token] = fn`: the variant's self-reference denotes the target
   | call                       -- the thread calls the function while its own probe is active
   deriving DecidableEq, Repr, Inhabited
 
@@ -23,6 +24,7 @@ structure Shared where
   count : Int := 0                       -- `instrument_count` (a lost update can corrupt it)
   caps : List Nat := []                  -- `captures`, as a multiset
   code : Option (List Nat) := none       -- installed variant: none = original code
+  toks : List (List Nat) := []           -- variants whose self-reference denotes the target function
   lockOwner : Option Nat := none
   lockDepth : Nat := 0
   deriving DecidableEq, Repr, Inhabited
@@ -43,6 +45,13 @@ structure State where
 
 def subset (a b : List Nat) : Bool := a.all b.contains
 
+def insertNat (x : Nat) : List Nat → List Nat
+  | [] => [x]
+  | y :: ys => if x ≤ y then x :: y :: ys else y :: insertNat x ys
+
+/-- a variant is keyed by the *set* of its captures -/
+def variantKey (l : List Nat) : List Nat := l.eraseDups.foldr insertNat []
+
 /-- one atomic step of thread `t` (its lock operations are assumed enabled) -/
 def doStep (t : Nat) (sh : Shared) (th : Thread) : Step → Shared × Thread
   | .acquire => ({ sh with lockOwner := some t, lockDepth := sh.lockDepth + 1 }, th)
@@ -60,13 +69,19 @@ def doStep (t : Nat) (sh : Shared) (th : Thread) : Step → Shared × Thread
   | .capsSub => ({ sh with caps := th.own.foldl List.erase sh.caps }, th)
   | .getReadCount => (sh, { th with tmpCount := sh.count })
   | .getReadCaps =>
-    (sh, { th with tmpVariant := if th.tmpCount = 0 then none else some sh.caps.eraseDups })
+    (sh, { th with tmpVariant := if th.tmpCount = 0 then none else some (variantKey sh.caps) })
   | .lookupVariant | .readCode | .writeMeta => (sh, th)
   | .writeCode => ({ sh with code := th.tmpVariant }, th)
+  | .writeToken =>
+    (match th.tmpVariant with
+     | some v => if sh.toks.contains v then (sh, th) else ({ sh with toks := sh.toks ++ [v] }, th)
+     | none => (sh, th))
   | .call =>
     (sh, { th with covered := th.covered ++ [match sh.code with
                                               | none => false
-                                              | some c => subset th.own c] })
+                                              -- the installed code instruments `own`, and it can find
+                                              -- its own function (otherwise no selector matches the call)
+                                              | some c => subset th.own c && sh.toks.contains c] })
 
 def doLine (t : Nat) (sh : Shared) (th : Thread) : List Step → Shared × Thread
   | [] => (sh, th)
